@@ -32,6 +32,7 @@ class Gen:
         self.k = 0
         self.helpers = []
         self.depth = 0
+        self.sites = set()
 
     def val(self):
         self.k += 1
@@ -84,7 +85,18 @@ class Gen:
         rng = self.rng
         self.depth += 1
         try:
-            k = rng.randrange(15 if self.depth < 4 else 4)
+            k = rng.randrange(19 if self.depth < 4 else 4)
+            if k == 18:
+                # an async function started from a callback that a NATIVE built-in invokes (map / forEach / sort / valueOf):
+                # its await has to suspend while the native frame is on the stack (known finding C07-await-under-native-frame)
+                self.sites.add("native-frame")
+                n = self.val()
+                return rng.choice([
+                    "acc += 'N' + (await Promise.all([1, 2].map(async x => (await order({v: x + %d, p: true})) + 1))).join('');" % n,
+                    "{ const ps%d = []; [3, 4].forEach(x => { ps%d.push(loadAsync(x)); }); acc += 'E' + (await Promise.all(ps%d)).join(''); }" % (n, n, n),
+                    "{ const ps%d = []; [2, 1].sort((a, b) => { ps%d.push(loadAsync(a)); return a - b; }); acc += 'O' + (await Promise.all(ps%d)).length; }" % (n, n, n),
+                    "{ let p%d; const ov = { valueOf() { p%d = loadAsync(5); return 1; } }; acc += 'V' + (ov + 1) + (await p%d); }" % (n, n, n),
+                ])
             if k in (0, 1):
                 return "acc += '|' + %s;" % self.expr()
             if k == 2:
@@ -133,6 +145,32 @@ class Gen:
                     rng.shuffle(items)
                     return "%s %s acc += 'M' + (await Promise.all([%s])).join(',');" % (decl, pre, ", ".join(items))
                 return "%s %s" % (decl, " ".join("acc += 'S' + (await p%d);" % i for i in order))
+            if k in (15, 16, 17):
+                # the await suspends while SYNCHRONOUS callers are on the stack (constructor with field initialisers and private
+                # methods, derived constructor before/after super, getter, method, function using `arguments`): after the
+                # resumption each caller goes on with its own this / new.target / arguments / locals
+                n = self.val()
+                which = rng.randrange(6)
+                if which == 0:
+                    self.helpers.append("class K%d { #p() { return 7; } f = startLoad(%d); g = 2; constructor(a) { this.a = a; this.sum = this.#p() + this.g + a; } get me() { return this; } }" % (n, n))
+                    return "{ const k = new K%d(%d); acc += 'k' + k.sum + (k.me === k) + (await k.f); }" % (n, rng.randint(1, 5))
+                if which == 1:
+                    self.helpers.append("class B%d { constructor(x) { this.x = x; this.nt = (new.target === B%d) ? 'base' : 'derived'; } } class D%d extends B%d { #q = 3; constructor() { const p = startLoad(%d); super(%d); this.p = p; this.t = new.target === D%d; this.r = this.#q + this.x; } }"
+                                        % (n, n, n, n, n, rng.randint(1, 5), n))
+                    return "{ const d = new D%d(); acc += 'd' + d.nt + d.t + d.r + (await d.p); }" % n
+                if which == 2:
+                    self.sites.add("native-frame")          # a getter is invoked through the native property read
+                    self.helpers.append("const og%d = { base: %d, get v() { const p = startLoad(%d); return [this.base, p, this === og%d]; } };" % (n, rng.randint(1, 9), n, n))
+                    return "{ const [b, p, same] = og%d.v; acc += 'g' + b + same + (await p); }" % n
+                if which == 3:
+                    self.helpers.append("function wa%d() { const before = arguments.length; const p = startLoad(%d); return [before, arguments.length, arguments[1], p]; }" % (n, n))
+                    return "{ const [a0, a1, a2, p] = wa%d(1, 'two', 3); acc += 'a' + a0 + a1 + a2 + (await p); }" % n
+                if which == 4:
+                    self.helpers.append("class M%d { constructor() { this.tag = 'm%d'; } run(x) { const self = this; const p = startLoad(x); const arrow = () => this.tag; return [self === this, arrow(), p]; } static make() { const p = startLoad(1); return [new this(), p]; } }" % (n, n))
+                    return "{ const [same, tag, p] = new M%d().run(%d); const [inst, q] = M%d.make(); acc += 'm' + same + tag + inst.tag + (await p) + (await q); }" % (n, rng.randint(1, 5), n)
+                self.sites.add("native-frame")              # the tag function of a template is not called through the trampoline
+                self.helpers.append("function tg%d(strs, ...vals) { const p = startLoad(vals.length); return [strs.join('_'), vals.join('+'), p]; }" % n)
+                return "{ const [s1, s2, p] = tg%d`a${%d}b${%d}c`; acc += 't' + s1 + s2 + (await p); }" % (n, rng.randint(1, 9), rng.randint(1, 9))
             if k in (13, 14):
                 # a rejection that has to leave one or more async functions that have no handler of their own
                 f = "rej%d" % self.val()
@@ -158,6 +196,7 @@ class Gen:
                "function* gen(n) { for (let i = 1; i <= n; i++) { yield i; } }\n"
                "class Box { constructor(x) { this.x = x; } async get() { const t = this; await order({v: 0}); return t === this ? this.x : -1; } }\n"
                "const obj = { base: 7, async m(a) { const r = a + %s; return r + this.base; } };\n"
+               "function startLoad(x) { return loadAsync(x); } async function loadAsync(x) { const w = await order({v: x, p: true}); return w + x; }\n"
                "async function helper(n, x) { if (n <= 0) { return x + %s; } const y = await helper(n - 1, x); return y + 1; }\n" % (self.aw(), self.aw()))
         return pre + "\n".join(self.helpers) + "\nasync function main() {\n" + body + "\nreturn acc + '#' + fs.map(f => f()).join('');\n}\n"
 
@@ -183,15 +222,25 @@ CORPUS = [
 ]
 
 
+def matches_finding(f, case, what, extra):
+    """site finding: only a program the generator tagged with the site, failing with exactly the recorded observation"""
+    if f.get("kind") != "site" or not isinstance(case, dict):
+        return False
+    return f.get("site_tag") in case.get("sites", []) and f.get("observation", "\0") in case.get("with_host_suspension", "")
+
+
 def run(ctx):
     rng = ctx.rng
     progs = []
+    sites = []
     n = 120 if ctx.tier == "quick" else 2500
     import random as _r
     for i in range(n):
         g = Gen(_r.Random(rng.randrange(2 ** 62)))
         progs.append(("generated", g.program()))
+        sites.append(sorted(g.sites))
     progs += [("corpus", c) for c in CORPUS]
+    sites += [[] for _ in CORPUS]
     schedules = [("immediate", {}), ("delay", {"delay": 2}), ("batch", {"batch": True}), ("permuted", {"perm": None}), ("gc", {"gc": True, "delay": 1}),
                  ("split-permuted-batch", {"split": True, "batch": True, "perm": None})]
     lines, meta = [], []
@@ -240,7 +289,7 @@ def run(ctx):
         if g != base.get(pi) and pi not in reported:
             reported.add(pi)
             ctx.prop_fail("transparent: under host schedule '%s' the program behaves differently from the run with an in-program stub" % name,
-                          {"program": p[:3000], "schedule": name, "with_host_suspension": g[:500], "with_stub": base.get(pi, "")[:500]})
+                          {"program": p[:3000], "schedule": name, "with_host_suspension": g[:500], "with_stub": base.get(pi, "")[:500], "sites": sites[pi]})
     # ---- known finding: an await inside an async generator body cannot suspend
     for f in ctx.findings:
         if f.get("kind") == "witness" and f.get("property") == "C07":
